@@ -161,7 +161,7 @@ pub proof fn lemma_least_nul(s: Seq<u8>, i: int) -> (k: int)
         lemma_least_nul(s, j)
     } else { i }
 }
-// ---- server::ServerUtil::get_message_body contains `unsafe { buf.set_len(len) }` (R9): contract only, listed as assumed.
+// ---- server::ServerUtil::get_message_body contains `unsafe { buf.set_len(len) }` (R9): contract only HERE; verified on its real text against textually this contract in unit msgbody.
 pub struct ServerUtil();
 impl ServerUtil {
     #[verifier::external_body]
